@@ -76,7 +76,7 @@ def run(ctx):
             if key not in seen and not st.get("sched._dryrun") is None:
                 seen.add(key)
     # C09.5: a job taken out of the wait queue consumes, is re-queued, or wakes the queue
-    r5 = ctx.rule("C09.5", "a re-nominated job that leaves without consuming its projected units wakes the wait queue", floor=2)
+    r5 = ctx.rule("C09.5", "a re-nominated job that leaves without consuming its projected units wakes the wait queue", floor=1)
     seen5 = set()
     n5 = 0
     for kind, trace in results:
